@@ -160,4 +160,13 @@ PROPS = {
                 "vector-clock race detection on rewritten struct-field accesses; final state compared with the final states of all sequential orders",
         "assumptions": ["file system operations are atomic steps of the running thread", "accesses inside mp4ff / dash-mpd are not hooked (only the receiver's own struct fields are)"],
     },
+    "C17": {
+        "parts": [{"pkg": "receiver", "test": "TestVerifC17", "env": {"GOMAXPROCS": "1"}}],
+        "clauses": ["C17.stored", "C17.window", "C17.mpd", "C17.times", "C17.monotone"],
+        "level": "model_checking",
+        "rule": "(A) every interleaving (per-track order kept) of [init, m0..m(M-1)] for track sets {v,a}x3, {v,a,text}x2, {v,v2}x3 (thorough adds {v,a,text}x3, {v,v2,a}x3, {v,a}x5) from the empty receiver; "
+                "(B) breadth-first search by replay to depth 4/5 after a canonical start-up over upload(track, k), k in {next, next+1, next-1, next+3, next-3} (gaps, duplicates, late and jumping numbers), "
+                "states deduplicated by generator counters, buffers, master parameters, file listing and MPD hash; after every upload the channel goroutine runs to quiescence under the vrt scheduler",
+        "assumptions": ["media segments beyond the six bundled ones are the bundled ones with rewritten sequence number and decode time", "timeShiftBufferDepth 8 s with 3.84 s segments (window of 4)"],
+    },
 }
